@@ -204,3 +204,91 @@ Print Assumptions C17_pinned_reset_aliasing_refuted.
 Print Assumptions C17_pinned_encrypted_ordinal_refuted.
 Print Assumptions C17_pinned_kv_survives_reset_refuted.
 Print Assumptions C17_pinned_plain_buffer_refuted.
+
+(** ---------- column state below the abstract machine: the accumulator of the
+    geospatial statistics, the integer conversions of the typed writer ---------- *)
+From Coq Require Import ZArith.
+From PQ Require Import Reset.Geo Reset.GeoProofs Reset.Ints Reset.IntsProofs.
+
+(** Geospatial statistics (GEOMETRY / GEOGRAPHY columns; [a_stats] of the state
+    machine above): whatever the accumulator of the column writer went through
+    -- any row groups [h] of any earlier life, from any state [a] -- after the
+    reset the footer of every row group carries the statistics of the values of
+    that row group alone. *)
+Theorem C17_geo_stats_history_irrelevant : forall a h rgs,
+  fst (life_stats (gacc_reset (snd (life_stats a h))) rgs) = map row_group_stats rgs.
+Proof. intros. apply life_stats_own_values. Qed.
+
+(** ... and within one life nothing flows from a row group to the next ones *)
+Theorem C17_geo_stats_row_groups_independent : forall a h rgs,
+  fst (life_stats (gacc_reset a) (h ++ rgs)%list) = (map row_group_stats h ++ map row_group_stats rgs)%list.
+Proof. intros. apply life_stats_app. Qed.
+
+(** [gacc_reset] has no statement to spare: a reset that left any one of the
+    flags or the type set alone would show in the footer of a later row group *)
+Definition geo_xy (x y : Z) : gvalue := GGeom (mk_geometry 1 false (Some (x, x)) (Some (y, y)) None None).
+Definition geo_xyzm (x y z m : Z) : gvalue :=
+  GGeom (mk_geometry 3001 false (Some (x, x)) (Some (y, y)) (Some (Some (z, z))) (Some (Some (m, m)))).
+Definition geo_empty_line : gvalue := GGeom (mk_geometry 2 true None None None None).
+
+Theorem C17_geo_every_reset_statement_needed :
+  forall k : N, In k [1; 2; 3; 4; 5; 6]%N ->
+  exists before after,
+    gacc_stats (gacc_values (gacc_reset_keeping k (gacc_values gacc_new before)) after) <> row_group_stats after.
+Proof.
+  intros k H. simpl in H.
+  destruct H as [<-|[<-|[<-|[<-|[<-|[<-|[]]]]]]].
+  - exists [geo_xy 1 2], [geo_empty_line]. vm_compute. discriminate.
+  - exists [geo_xy 1 2], []. vm_compute. discriminate.
+  - exists [GBad], [geo_xy 1 2]. vm_compute. discriminate.
+  - exists [geo_xyzm 1 2 3 4], [geo_xy 1 2]. vm_compute. discriminate.
+  - exists [geo_xyzm 1 2 3 4], [geo_xy 1 2]. vm_compute. discriminate.
+  - exists [geo_xyzm 1 2 3 4], [geo_xy 1 2]. vm_compute. discriminate.
+Qed.
+
+Example C17_ex_geo :
+  row_group_stats [geo_xyzm 5 (-2) 7 100; geo_xy (-1) 6; geo_empty_line]
+  = Some (mk_gstats [1; 2; 3001] (Some (mk_bbox (-1, 5)%Z (-2, 6)%Z (Some (7, 7)%Z) (Some (100, 100)%Z))))
+  /\ row_group_stats [geo_xy 1 2; GBad; geo_xy 3 4] = None
+  /\ row_group_stats [geo_empty_line] = Some (mk_gstats [2] None)
+  /\ fst (life_stats gacc_new [[geo_xyzm 1 2 3 4]; [geo_xy 1 2]])
+     = [Some (mk_gstats [3001] (Some (mk_bbox (1, 1)%Z (2, 2)%Z (Some (3, 3)%Z) (Some (4, 4)%Z))));
+        Some (mk_gstats [1] (Some (mk_bbox (1, 1)%Z (2, 2)%Z None None)))].
+Proof. vm_compute. repeat split; reflexivity. Qed.
+
+(** Integer fields of typed rows, for every (Go kind, width tag) combination:
+    the pattern stored in the INT32 / INT64 column is [widen] of the field, a
+    function of the field alone (no scratch memory, no other field); when the
+    column is at least as wide as the kind it is lossless, and it denotes the
+    Go value at the signedness of the kind. *)
+Theorem C17_int_store_lossless : forall signed bits phys raw,
+  (0 < bits <= phys)%Z -> (0 <= raw < 2 ^ bits)%Z ->
+  read_back bits (widen signed bits phys raw) = raw
+  /\ go_value signed phys (widen signed bits phys raw) = go_value signed bits raw
+  /\ (0 <= widen signed bits phys raw < 2 ^ phys)%Z.
+Proof.
+  intros signed bits phys raw Hb Hr. repeat split.
+  - now apply widen_read_back.
+  - now apply widen_value.
+  - apply widen_range. apply Z.lt_le_incl, Z.lt_le_trans with bits; tauto.
+  - apply widen_range. apply Z.lt_le_incl, Z.lt_le_trans with bits; tauto.
+Qed.
+
+Theorem C17_int_store_injective : forall signed bits phys r1 r2,
+  (0 < bits <= phys)%Z -> (0 <= r1 < 2 ^ bits)%Z -> (0 <= r2 < 2 ^ bits)%Z ->
+  widen signed bits phys r1 = widen signed bits phys r2 -> r1 = r2.
+Proof. exact widen_injective. Qed.
+
+Example C17_ex_ints :
+  widen true 8 64 255 = 18446744073709551615%Z        (* int8(-1), int(64) / uint(64) *)
+  /\ widen false 16 64 65535 = 65535%Z                (* uint16, uint(64) *)
+  /\ widen true 16 32 32768 = 4294934528%Z            (* int16(-32768), INT32 *)
+  /\ widen false 64 32 4294967301 = 5%Z               (* uint64(2^32+5), int(32): truncated *)
+  /\ widen_column true 32 64 [1; 2147483648]%Z = [1; 18446744071562067968]%Z.
+Proof. vm_compute. repeat split; reflexivity. Qed.
+
+Print Assumptions C17_geo_stats_history_irrelevant.
+Print Assumptions C17_geo_stats_row_groups_independent.
+Print Assumptions C17_geo_every_reset_statement_needed.
+Print Assumptions C17_int_store_lossless.
+Print Assumptions C17_int_store_injective.
